@@ -2311,7 +2311,9 @@ func protoFromGoStruct(s ygot.ValidatedGoStruct, prefix *gpb.Path, pb proto.Mess
 // keyed by the gRIBI AFTType enumeration, if the value is set to true, the AFT is written
 // to msgCh, otherwise it is skipped. The contents of the RIB are returned as gRIBI
 // GetResponse messages which are written to the supplied msgCh. stopCh is a channel that
-// indicates that the GetRIB method should stop its work and return immediately.
+// indicates that the GetRIB method should stop its work and return immediately - it is
+// signalled by being closed (or written to), and is honoured whilst GetRIB is waiting
+// for msgCh to be read, so that a reader that goes away does not leave the RIB locked.
 //
 // An error is returned if the RIB cannot be returned.
 func (r *RIBHolder) GetRIB(filter map[spb.AFTType]bool, msgCh chan *spb.GetResponse, stopCh chan struct{}) error {
@@ -2346,110 +2348,105 @@ func (r *RIBHolder) GetRIB(filter map[spb.AFTType]bool, msgCh chan *spb.GetRespo
 
 	if filter[spb.AFTType_IPV4] {
 		for pfx, e := range r.r.Afts.Ipv4Entry {
+			p, err := ConcreteIPv4Proto(e)
+			if err != nil {
+				return status.Errorf(codes.Internal, "cannot marshal IPv4Entry for %s into GetResponse, %v", pfx, err)
+			}
 			select {
 			case <-stopCh:
 				return nil
-			default:
-				p, err := ConcreteIPv4Proto(e)
-				if err != nil {
-					return status.Errorf(codes.Internal, "cannot marshal IPv4Entry for %s into GetResponse, %v", pfx, err)
-				}
-				msgCh <- &spb.GetResponse{
-					Entry: []*spb.AFTEntry{{
-						NetworkInstance: r.name,
-						Entry: &spb.AFTEntry_Ipv4{
-							Ipv4: p,
-						},
-					}},
-				}
+			case msgCh <- &spb.GetResponse{
+				Entry: []*spb.AFTEntry{{
+					NetworkInstance: r.name,
+					Entry: &spb.AFTEntry_Ipv4{
+						Ipv4: p,
+					},
+				}},
+			}:
 			}
 		}
 	}
 
 	if filter[spb.AFTType_IPV6] {
 		for pfx, e := range r.r.Afts.Ipv6Entry {
+			p, err := ConcreteIPv6Proto(e)
+			if err != nil {
+				return status.Errorf(codes.Internal, "cannot marshal IPv6Entry for %s into GetResponse, %v", pfx, err)
+			}
 			select {
 			case <-stopCh:
 				return nil
-			default:
-				p, err := ConcreteIPv6Proto(e)
-				if err != nil {
-					return status.Errorf(codes.Internal, "cannot marshal IPv6Entry for %s into GetResponse, %v", pfx, err)
-				}
-				msgCh <- &spb.GetResponse{
-					Entry: []*spb.AFTEntry{{
-						NetworkInstance: r.name,
-						Entry: &spb.AFTEntry_Ipv6{
-							Ipv6: p,
-						},
-					}},
-				}
+			case msgCh <- &spb.GetResponse{
+				Entry: []*spb.AFTEntry{{
+					NetworkInstance: r.name,
+					Entry: &spb.AFTEntry_Ipv6{
+						Ipv6: p,
+					},
+				}},
+			}:
 			}
 		}
 	}
 
 	if filter[spb.AFTType_MPLS] {
 		for lbl, e := range r.r.Afts.LabelEntry {
+			p, err := ConcreteMPLSProto(e)
+			if err != nil {
+				return status.Errorf(codes.Internal, "cannot marshal MPLS entry for label %d into GetResponse, %v", lbl, err)
+			}
 			select {
 			case <-stopCh:
 				return nil
-			default:
-				p, err := ConcreteMPLSProto(e)
-				if err != nil {
-					return status.Errorf(codes.Internal, "cannot marshal MPLS entry for label %d into GetResponse, %v", lbl, err)
-				}
-				msgCh <- &spb.GetResponse{
-					Entry: []*spb.AFTEntry{{
-						NetworkInstance: r.name,
-						Entry: &spb.AFTEntry_Mpls{
-							Mpls: p,
-						},
-					}},
-				}
+			case msgCh <- &spb.GetResponse{
+				Entry: []*spb.AFTEntry{{
+					NetworkInstance: r.name,
+					Entry: &spb.AFTEntry_Mpls{
+						Mpls: p,
+					},
+				}},
+			}:
 			}
 		}
 	}
 
 	if filter[spb.AFTType_NEXTHOP_GROUP] {
 		for index, e := range r.r.Afts.NextHopGroup {
+			p, err := ConcreteNextHopGroupProto(e)
+			if err != nil {
+				return status.Errorf(codes.Internal, "cannot marshal NextHopGroupEntry for index %d into GetResponse, %v", index, err)
+			}
 			select {
 			case <-stopCh:
 				return nil
-			default:
-				p, err := ConcreteNextHopGroupProto(e)
-				if err != nil {
-					return status.Errorf(codes.Internal, "cannot marshal NextHopGroupEntry for index %d into GetResponse, %v", index, err)
-				}
-				msgCh <- &spb.GetResponse{
-					Entry: []*spb.AFTEntry{{
-						NetworkInstance: r.name,
-						Entry: &spb.AFTEntry_NextHopGroup{
-							NextHopGroup: p,
-						},
-					}},
-				}
+			case msgCh <- &spb.GetResponse{
+				Entry: []*spb.AFTEntry{{
+					NetworkInstance: r.name,
+					Entry: &spb.AFTEntry_NextHopGroup{
+						NextHopGroup: p,
+					},
+				}},
+			}:
 			}
 		}
 	}
 
 	if filter[spb.AFTType_NEXTHOP] {
 		for id, e := range r.r.Afts.NextHop {
+			p, err := ConcreteNextHopProto(e)
+			if err != nil {
+				return status.Errorf(codes.Internal, "cannot marshal NextHopEntry for ID %d into GetResponse, %v", id, err)
+			}
 			select {
 			case <-stopCh:
 				return nil
-			default:
-				p, err := ConcreteNextHopProto(e)
-				if err != nil {
-					return status.Errorf(codes.Internal, "cannot marshal NextHopEntry for ID %d into GetResponse, %v", id, err)
-				}
-				msgCh <- &spb.GetResponse{
-					Entry: []*spb.AFTEntry{{
-						NetworkInstance: r.name,
-						Entry: &spb.AFTEntry_NextHop{
-							NextHop: p,
-						},
-					}},
-				}
+			case msgCh <- &spb.GetResponse{
+				Entry: []*spb.AFTEntry{{
+					NetworkInstance: r.name,
+					Entry: &spb.AFTEntry_NextHop{
+						NextHop: p,
+					},
+				}},
+			}:
 			}
 		}
 	}
